@@ -588,4 +588,57 @@ def acyclic (frags : List Frag) : Bool :=
 def Doc.fuel (doc : Doc) : Nat :=
   maxList (doc.ops.map fun op => potL (wOf (weights doc.frags)) op.sels) + 1
 
+/-! ### after proposed_fixes/C19-Q2.patch: a nesting budget makes the rule total on CYCLIC documents too
+
+  `_nesting_levels(selections, fragments, variables, budget, memo)` and
+  `collect_fields_untyped(..., _budget=budget)` raise `ExpansionBudgetExhausted` when the budget is used up
+  (this IS the fuel of the functions above: `.error .recursion`); `__call__` catches it (and `RecursionError`) and
+  reports the operation as unbounded. The per-operation `memo` is semantically transparent (a pure function of
+  the selections for fixed fragments / variables) and is not modelled. -/
+
+/-- `_static_nesting(selections)`: longest chain of nested selection sets as written (a spread counts 1) -/
+def nestOf (sels : List Sel) : Nat := potL (fun _ => 0) sels
+
+/-- `(len(fragments) + 2) * (1 + max(_static_nesting(d) for every operation and fragment definition))` -/
+def Doc.budget (doc : Doc) : Nat :=
+  (doc.frags.length + 2) *
+    (1 + maxList (doc.ops.map (fun o => nestOf o.sels) ++ doc.frags.map (fun f => nestOf f.sels)))
+
+/-- depth of an operation; `none` = the budget was used up ("depth is unbounded") -/
+def depthFixedB (fuel : Nat) (op : Op) (frags : List Frag) (vars : Vars) : Except Err (Option Nat) :=
+  match depthFixedG skipSelectionT fuel op frags vars with
+  | .ok d => .ok (some d)
+  | .error .recursion => .ok none        -- `except (ExpansionBudgetExhausted, RecursionError)`
+  | .error e => .error e
+
+/-- the loop over the operations; an unbounded operation is reported whatever the limit -/
+def ruleLoopB (depthOf : Nat → Op → Except Err (Option Nat)) (limit : Nat) (filter : Option String) :
+    Nat → List Op → Except Err (List (Nat × Option Nat))
+  | _, [] => .ok []
+  | i, op :: rest =>
+    if opSelected filter op then
+      match depthOf i op with
+      | .error e => .error e
+      | .ok d =>
+        match ruleLoopB depthOf limit filter (i + 1) rest with
+        | .error e => .error e
+        | .ok errs =>
+          .ok (match d with
+            | none => (i, none) :: errs
+            | some n => if n > limit then (i, some n) :: errs else errs)
+    else ruleLoopB depthOf limit filter (i + 1) rest
+
+/-- `MaxDepthValidationRule(limit, operation_name=filter)(schema, doc, raw)` after C19-Q2.patch -/
+def ruleB (limit : Nat) (filter : Option String) (doc : Doc) (defs : List (List VarDefR)) (raw : RawVars) :
+    Except Err (List (Nat × Option Nat)) :=
+  ruleLoopB (fun i op => depthFixedB doc.budget op doc.frags (effectiveVarsR (defs.getD i []) raw))
+    limit filter 0 doc.ops
+
+/-- the pipeline with the repaired rule (an unbounded operation is a depth error like any other) -/
+def pipelineB (n : Nat) (filter : Option String) (doc : Doc) (defs : List (List VarDefR)) (raw : RawVars)
+    (defaultErrors : Nat) : Outcome :=
+  outcomeOf (match ruleB n filter doc defs raw with
+    | .error e => .error e
+    | .ok errs => .ok (errs.map fun p => (p.1, p.2.getD 0))) defaultErrors
+
 end PyGql.Depth
